@@ -182,11 +182,13 @@ func (s *server) handle(stream net.Stream, authenticated bool) {
 		context.SetAuthenticated()
 	}
 	filter := func(hdr *net.Header) (matched bool, keep bool) {
-		if hdr.Type == net.Reply || hdr.Type == net.Error ||
-			hdr.Type == net.Event || hdr.Type == net.Cancelled {
-			return false, true
+		// only calls and posts are requests to a service: any
+		// other message (cancel, capability, ...) shall not
+		// execute a method.
+		if hdr.Type == net.Call || hdr.Type == net.Post {
+			return true, true
 		}
-		return true, true
+		return false, true
 	}
 	consumer := make(chan *net.Message, 10)
 	go func() {
